@@ -43,6 +43,11 @@ M = [
     ("C02", "clip-in-place", "black_it/samplers/xgboost.py", "        y = np.copy(y)\n", ""),
     ("C02", "sort-desc", "black_it/calibrator.py", "            idx = np.argsort(self.losses_samp)", "            idx = np.argsort(self.losses_samp)[::-1] if len(self.losses_samp) == 3 else np.argsort(self.losses_samp)"),
     ("C02", "loss-on-first", "black_it/calibrator.py", "                for sim_data_ensemble in new_simulated_data:\n                    new_loss = self.loss_function.compute_loss(\n                        sim_data_ensemble,", "                for sim_data_ensemble in new_simulated_data:\n                    new_loss = self.loss_function.compute_loss(\n                        new_simulated_data[0] if len(new_simulated_data) == 3 else sim_data_ensemble,"),
+    ("C12", "forget-history", "black_it/samplers/base.py", "all_points = np.concatenate((existing_points, new_points))", "all_points = np.concatenate((existing_points[:1], new_points))"),
+    ("C12", "count-gt-2", "black_it/samplers/base.py", "repeated_groups = unq[count > 1]", "repeated_groups = unq[count > 2]"),
+    ("C12", "one-pass-less", "black_it/samplers/base.py", "for n in range(self.max_deduplication_passes):", "for n in range(max(self.max_deduplication_passes - 1, min(self.max_deduplication_passes, 1))):"),
+    ("C12", "break-le-1", "black_it/samplers/base.py", "            if num_duplicates == 0:", "            if num_duplicates == 0 or (num_duplicates == 1 and n >= 2):"),
+    ("C12", "redraw-all", "black_it/samplers/base.py", "            new_samples = self.sample_batch(\n                num_duplicates,", "            new_samples = self.sample_batch(\n                num_duplicates if n < 1 else len(samples),"),
     ("C15", "no-tolerance", "black_it/search_space.py", "parameters_bounds[1][i] + 0.0000001,", "parameters_bounds[1][i],"),
 ]
 
